@@ -162,6 +162,12 @@ def main(mod, argv=None):
     if a.only:
         items = [i for i in items if a.only in i['name']]
     # translator validation first: the model of numba semantics vs the compiled kernels
+    # fork the workers first, while this process is still single-threaded: the validation step
+    # below runs compiled (possibly parallel) numba kernels, and forking after their thread pools
+    # exist can dead-lock the children
+    ctxm = mp.get_context('fork')
+    nproc = max(1, min(a.procs, len(items)))
+    pool = ctxm.Pool(nproc) if nproc > 1 else None
     valerr = None
     try:
         nvalid = mod.validate(tier)
@@ -171,12 +177,12 @@ def main(mod, argv=None):
         # report nothing, the model is not to be trusted: harness error.
         nvalid = 0
         valerr = f'{type(e).__name__}: {e}\n{traceback.format_exc()[-1500:]}'
-
-    ctxm = mp.get_context('fork')
-    nproc = max(1, min(a.procs, len(items)))
-    if nproc > 1:
-        with ctxm.Pool(nproc) as pool:
+    if pool is not None:
+        try:
             results = list(pool.imap_unordered(_run_item, [(mod.__name__, i) for i in items], chunksize=1))
+        finally:
+            pool.close()
+            pool.join()
     else:
         results = [_run_item((mod.__name__, i)) for i in items]
     results.sort(key=lambda r: r['item']['name'])
